@@ -308,10 +308,11 @@ void XMLGrammarPoolImpl::deserializeGrammars(BinInputStream* const binIn)
         //
         if (StorerLevel != (unsigned int)XERCES_GRAMMAR_SERIALIZATION_LEVEL)
         {
-            XMLCh     StorerLevelChar[5];
-            XMLCh     LoaderLevelChar[5];
-            XMLString::binToText(StorerLevel,                          StorerLevelChar,   4, 10, memMgr);
-            XMLString::binToText(XERCES_GRAMMAR_SERIALIZATION_LEVEL,   LoaderLevelChar,   4, 10, memMgr);
+            // the level read from the stream can be any 32-bit value (up to 10 digits)
+            XMLCh     StorerLevelChar[11];
+            XMLCh     LoaderLevelChar[11];
+            XMLString::binToText(StorerLevel,                          StorerLevelChar,   10, 10, memMgr);
+            XMLString::binToText(XERCES_GRAMMAR_SERIALIZATION_LEVEL,   LoaderLevelChar,   10, 10, memMgr);
 
             ThrowXMLwithMemMgr2(XSerializationException
                     , XMLExcepts::XSer_Storer_Loader_Mismatch
